@@ -137,9 +137,46 @@ class SingleFieldSubscriptionsChecker(ValidationVisitor):
     root field.
     """
 
+    def __init__(self, schema, type_info):
+        super(SingleFieldSubscriptionsChecker, self).__init__(
+            schema, type_info
+        )
+        self._fragments = {}  # type: Dict[str, _ast.FragmentDefinition]
+
+    def enter_document(self, node):
+        self._fragments = {
+            definition.name.value: definition
+            for definition in node.definitions
+            if isinstance(definition, _ast.FragmentDefinition)
+        }
+
+    def _root_response_names(self, selection_set, names, visited):
+        # The rule is about the collected fields: fragments are looked into
+        # and the same response name selected twice is one root field.
+        for selection in selection_set.selections:
+            if isinstance(selection, _ast.Field):
+                names.add(
+                    selection.alias.value
+                    if selection.alias
+                    else selection.name.value
+                )
+            elif isinstance(selection, _ast.InlineFragment):
+                self._root_response_names(
+                    selection.selection_set, names, visited
+                )
+            elif isinstance(selection, _ast.FragmentSpread):
+                fragment = self._fragments.get(selection.name.value)
+                if fragment is not None and fragment.name.value not in visited:
+                    visited.add(fragment.name.value)
+                    self._root_response_names(
+                        fragment.selection_set, names, visited
+                    )
+        return names
+
     def enter_operation_definition(self, node):
         if node.operation == "subscription":
-            if len(node.selection_set.selections) != 1:
+            names = self._root_response_names(node.selection_set, set(), set())
+            if len(names) > 1:
                 if node.name:
                     msg = (
                         'Subscription "%s" must select only one top level field.'
